@@ -70,6 +70,19 @@ func c06CheckMarshal(w *mon.W, c pbCase) ([]byte, bool) {
 			}
 		}
 	}
+	// a message is the caller's object: it may ask for the size, change the message and only then marshal it (round 12
+	// seeded a one-entry memo through which the encoding made for Size was handed to the next Marshal of the same pointer)
+	if l, ok := c06Legacy(msg); ok && len(body)&1 == 0 {
+		saved := l.Payload
+		l.Payload = append([]byte("an earlier state of this message: "), saved...)
+		w.Op = "Size(earlier state of the message)"
+		if sz := pbcmpl.Size(msg); sz != 32+len(l.Payload) {
+			w.Fail("Size/not-header-plus-body", mon.D{"kind": pbKindNames[c.Kind], "got": sz, "expected": 32 + len(l.Payload)})
+			return nil, false
+		}
+		l.Payload = saved
+		w.Bucket("legacy/size-then-change-then-marshal")
+	}
 	w.Op, w.A, w.B = "Marshal", int64(c.Kind), int64(len(body))
 	rec := &quotaWriter{quota: -1}
 	n, err := pbcmpl.Marshal(rec, msg)
